@@ -57,11 +57,19 @@ func bedTruncate(it bedItem) bedItem {
 func bedRead(data []byte) (items []bedItem, panicked bool) {
 	items = []bedItem{}
 	panicked, _ = catch(func() {
-		for b, err := range bed.Reader(bytes.NewReader(data)) {
+		for b, err := range bed.Reader(deliver(data)) {
 			if err != nil {
 				items = append(items, bedErrItem)
 			} else {
 				items = append(items, bedProject(b))
+				// the consumer edits what it was given: nothing of that may show in a later record
+				for i := range b.BlockSizes {
+					b.BlockSizes[i] = -77
+				}
+				for i := range b.BlockStarts {
+					b.BlockStarts[i] = -78
+				}
+				b.BlockSizes, b.BlockStarts = append(b.BlockSizes, 1), append(b.BlockStarts, 2)
 			}
 			if len(items) > 5000 {
 				break
@@ -217,6 +225,7 @@ func bedDrive(args []string) error {
 			continue
 		}
 		r := newRand(int64(sid) + 4000)
+		readDelivery = []int{0, 0, 1, 0, 2, 3}[sid%6]
 		n := 3 + sid%10
 		nrec := 1 + r.Intn(20)
 		if sid%5 == 0 {
@@ -259,6 +268,21 @@ func bedDrive(args []string) error {
 				file = append(file, line...)
 				want = append(want, bedTruncate(before))
 			}
+		}
+		if sid == 5 { // every byte value next to a field separator: at the start and at the end of a text field, four fields
+			n = 4
+			for v := 0; v < 256; v++ {
+				if v == '\t' || v == '\n' || v == '\r' {
+					continue
+				}
+				b := bedRecord(r, n)
+				b.Chrom, b.Name = "c"+string([]byte{byte(v)}), string([]byte{byte(v)})+"n"
+				if v%2 == 1 {
+					b.Name = string([]byte{byte(v)})
+				}
+				write(b, true)
+			}
+			nrec = 0
 		}
 		if sid == 3 { // every small score (the BED range is 0..1000) and every small coordinate, five fields
 			n = 5
